@@ -315,6 +315,63 @@ def c11_history(reruns, propagate, fail_first):
     return None
 
 
+def c11_nested_rerun(use_async, propagate, x=1):
+    """a workflow with nested workflow nodes, run, then run again with rerun=True: with propagation every body is executed again;
+    without it no body is, and no job other than the submitted workflow itself is executed again (its stored result is untouched)"""
+    from pydra.engine.submitter import Submitter
+    from vf.hl import sched as S
+    E.reset()
+    R.clear()
+    d = E.scratch()
+
+    def submit(rerun):
+        if use_async:
+            S.reset(())
+            S.STATE["all_complete"] = True
+            sub = S.submitter(d, None, propagate_rerun=propagate)
+            return sub(D.Nested(x=x), raise_errors=True, rerun=rerun)
+        with Submitter(cache_root=d, worker="debug", propagate_rerun=propagate) as sub:
+            return sub(D.Nested(x=x), raise_errors=True, rerun=rerun)
+
+    def stored():
+        out = {}
+        for jd in job_dirs(d):
+            p = os.path.join(d, jd, "_result.pklz")
+            if os.path.exists(p):
+                st = os.stat(p)
+                out[jd] = (st.st_ino, st.st_mtime_ns, st.st_size)
+        return out
+
+    err = None
+    try:
+        try:
+            submit(False)
+            n1 = len(bodies("Node")) + len(bodies("Join"))
+            before = stored()
+            import time as _t
+            _t.sleep(0.02)
+            submit(True)
+            n2 = len(bodies("Node")) + len(bodies("Join")) - n1
+            after = stored()
+        except Exception as e:
+            err = e
+    finally:
+        E.cleanup(d)
+    T.reach()
+    desc = "nested workflows, %s loop, rerun=True with propagate_rerun=%s" % ("async" if use_async else "sync", propagate)
+    if err is not None:
+        return "%s: %r" % (desc, err)
+    if n1 != 10:
+        return "%s: first submission executed %d bodies, expected 10" % (desc, n1)
+    if n2 != (10 if propagate else 0):
+        return "%s: second submission executed %d bodies, expected %d" % (desc, n2, 10 if propagate else 0)
+    if not propagate:
+        changed = sorted(k for k in after if after[k] != before.get(k))
+        if len(changed) > 1:
+            return "%s: the stored results of %s were rewritten (only the submitted workflow itself is executed again)" % (desc, changed)
+    return None
+
+
 # ------------------------------------------------------------------ C35
 class Fault(Exception):
     """ordinary exception injected by the harness"""
